@@ -321,6 +321,285 @@ static void *ext_main(void *p)
     return NULL;
 }
 
+
+/* ======================================================================= migration (C13)
+ * Movers are ULTs that yield / suspend in a loop and report the pool they
+ * were last popped from; requesters (the primary ULT, an external thread, the
+ * mover itself) issue one request at a time and wait until it is performed
+ * (callback observed) or must be rejected.  Judged by the migration part of
+ * H_Exec. */
+#define MAXM 4
+typedef struct {
+    int id, home, rounds, migratable, cbmode, self_req, suspend_round;
+    ABT_thread th;
+    volatile int cb_count, done, round, state_hint, cb_ready;
+} mover_t;
+static mover_t MV[MAXM + 1];
+static int g_nm;
+static int pool_index(ABT_pool p)
+{
+    for (int e = 0; e < g_nes; e++)
+        if (g_pool[e][0] == p)
+            return e;
+    return -1;
+}
+static void mig_cb(ABT_thread th, void *arg)
+{
+    mover_t *m = (mover_t *)arg;
+    (void)th;
+    m->cb_count++;
+    EV("\"e\":\"MigCb\",\"u\":%d", m->id);
+}
+static int last_pool_of_self(void)
+{
+    ABT_pool p;
+    CHK(ABT_self_get_last_pool(&p));
+    return pool_index(p);
+}
+static void request(int who, mover_t *m, int how, int tgt)
+{
+    /* how: 0 to_pool, 1 to_xstream, 2 to_sched, 3 migrate (any other stream) */
+    int r;
+    EV("\"e\":\"MigReq\",\"by\":%d,\"u\":%d,\"tgt\":%d,\"how\":%d", who, m->id, how == 3 ? -1 : tgt, how);
+    if (how == 0)
+        r = ABT_thread_migrate_to_pool(m->th, g_pool[tgt][0]);
+    else if (how == 1)
+        r = ABT_thread_migrate_to_xstream(m->th, g_xs[tgt]);
+    else if (how == 2) {
+        ABT_sched sc;
+        CHK(ABT_xstream_get_main_sched(g_xs[tgt], &sc));
+        r = ABT_thread_migrate_to_sched(m->th, sc);
+    } else
+        r = ABT_thread_migrate(m->th);
+    EV("\"e\":\"MigRet\",\"by\":%d,\"u\":%d,\"ret\":%d", who, m->id,
+       r == ABT_SUCCESS ? 0 : r == ABT_ERR_MIGRATION_TARGET ? 1 : r == ABT_ERR_INV_THREAD ? 2 : r == ABT_ERR_MIGRATION_NA ? 3 : 9);
+}
+static void mover_body(void *arg)
+{
+    mover_t *m = (mover_t *)arg;
+    int rank = -1;
+    ABT_xstream_self_rank(&rank);
+    EV("\"e\":\"Start\",\"u\":%d,\"arg\":%d,\"es\":%d,\"n\":1", m->id, m->id * 10, rank);
+    EV("\"e\":\"Back\",\"u\":%d,\"pool\":%d", m->id, last_pool_of_self());
+    /* the migration record must exist before requests can race on creating it
+     * (known finding S2 is exercised by scenario "migrace" only) */
+    while (!m->cb_ready) {
+        EV("\"e\":\"Yield\",\"u\":%d", m->id);
+        CHK(ABT_thread_yield());
+        EV("\"e\":\"Back\",\"u\":%d,\"pool\":%d", m->id, last_pool_of_self());
+    }
+    for (int r = 0; r < m->rounds; r++) {
+        m->round = r;
+        if (m->self_req && (r % 2) == 0 && g_nes > 1) {
+            /* self-migration, possibly overwritten by a second request */
+            int cur = last_pool_of_self();
+            int t1 = (cur + 1 + rnd(g_nes - 1)) % g_nes;
+            request(m->id, m, g_cfg == 4 ? 0 : rnd(3), t1);
+            if (m->self_req == 2 && g_nes > 2) {
+                int t2 = (cur + 1 + rnd(g_nes - 1)) % g_nes;
+                request(m->id, m, 0, t2);
+            }
+        }
+        if (r == m->suspend_round) {
+            EV("\"e\":\"Suspend\",\"u\":%d", m->id);
+            m->state_hint = 1;
+            CHK(ABT_self_suspend());
+            m->state_hint = 0;
+            EV("\"e\":\"Resumed\",\"u\":%d", m->id);
+        } else {
+            EV("\"e\":\"Yield\",\"u\":%d", m->id);
+            CHK(ABT_thread_yield());
+        }
+        EV("\"e\":\"Back\",\"u\":%d,\"pool\":%d", m->id, last_pool_of_self());
+    }
+    m->done = 1;
+    EV("\"e\":\"Finish\",\"u\":%d", m->id);
+}
+static int try_resume(int who, mover_t *m)
+{
+    if (m->state_hint == 1 && state_of(m->th) == 2) {
+        m->state_hint = 2;
+        EV("\"e\":\"ResumeCall\",\"by\":%d,\"u\":%d", who, m->id);
+        CHK(ABT_thread_resume(m->th));
+        EV("\"e\":\"ResumeRet\",\"by\":%d,\"u\":%d", who, m->id);
+        return 1;
+    }
+    return 0;
+}
+/* requester loop of main (who = 0) or the external thread (who = -1) */
+static void mig_serve(int who)
+{
+    int issued = 0;
+    for (;;) {
+        int alive = 0;
+        for (int i = 1; i <= g_nm; i++) {
+            mover_t *m = &MV[i];
+            int mine = ((i % 2) && g_have_ext) ? -1 : 0;
+            if (mine != who)
+                continue;
+            if (m->done)
+                continue;
+            alive = 1;
+            if (!m->cb_ready)
+                continue;
+            /* resume duty (sometimes only after a request was issued while it is blocked) */
+            if (m->state_hint == 1 && (m->self_req || g_nes < 2 || rnd(2)) && try_resume(who, m))
+                continue;
+            if (m->self_req || g_nes < 2 || issued > 12)
+                continue;
+            if (rnd(3))
+                continue;
+            /* one external request at a time: wait until it is performed */
+            int before = m->cb_count;
+            int cur = -1;
+            {
+                /* the pool the unit is associated with right now (it can only change through us) */
+                cur = m->home;
+            }
+            int how = rnd(4);
+            if (g_cfg == 4 && how != 0)
+                how = 0; /* shared pools: every stream's scheduler already has the pool */
+            if (how == 3 && g_nes < 3)
+                how = 1; /* ABT_thread_migrate excludes the last stream and the pool's owner */
+            int tgt = (cur + 1 + rnd(g_nes - 1)) % g_nes;
+            int expect_ok = m->migratable;
+            if (rnd(6) == 0) {
+                tgt = cur; /* same pool: must be rejected */
+                how = 0;
+                expect_ok = 0;
+            }
+            issued++;
+            request(who, m, how, tgt);
+            if (expect_ok) {
+                while (m->cb_count == before && !m->done) {
+                    try_resume(who, m);
+                    pause_any(who);
+                }
+                if (m->cb_count != before) {
+                    if (how == 3)
+                        m->self_req = 3; /* the runtime chose the target: no further requests from us */
+                    else
+                        m->home = tgt;
+                }
+            }
+        }
+        if (!alive)
+            break;
+        pause_any(who);
+    }
+}
+static void *mig_ext_main(void *p)
+{
+    (void)p;
+    mig_serve(-1);
+    g_ext_done = 1;
+    return NULL;
+}
+static void scn_migrate(void)
+{
+    memset(MV, 0, sizeof MV);
+    g_nm = 1 + rnd(MAXM);
+    g_have_ext = rnd(2);
+    g_ext_done = 0;
+    EV("\"e\":\"Exec\",\"nu\":%d,\"nes\":%d,\"cfg\":%d,\"ext\":%d", g_nm, g_nes, g_cfg, g_have_ext);
+    for (int i = 1; i <= g_nm; i++) {
+        mover_t *m = &MV[i];
+        m->id = i;
+        m->home = rnd(g_nes);
+        m->rounds = 2 + rnd(5);
+        m->migratable = rnd(6) != 0;
+        m->cbmode = rnd(2);
+        m->self_req = m->migratable ? (rnd(3) == 0 ? 1 + rnd(2) : 0) : 0;
+        m->suspend_round = rnd(3) == 0 ? rnd(m->rounds) : -1;
+        ABT_thread_attr attr;
+        CHK(ABT_thread_attr_create(&attr));
+        CHK(ABT_thread_attr_set_stacksize(attr, 65536));
+        if (!m->migratable)
+            CHK(ABT_thread_attr_set_migratable(attr, ABT_FALSE));
+        if (m->cbmode == 0)
+            CHK(ABT_thread_attr_set_callback(attr, mig_cb, m));
+        EV("\"e\":\"Create\",\"by\":0,\"u\":%d,\"kind\":0,\"named\":1,\"arg\":%d,\"pool\":%d,\"mig\":%d", i, i * 10, m->home,
+           m->migratable);
+        CHK(ABT_thread_create(g_pool[m->home][0], mover_body, m, attr, &m->th));
+        CHK(ABT_thread_attr_free(&attr));
+        /* installing the callback afterwards also creates the migration record
+         * before any concurrent request (see known finding S2) */
+        if (m->cbmode == 1)
+            CHK(ABT_thread_set_callback(m->th, mig_cb, m));
+        m->cb_ready = 1;
+        EV("\"e\":\"CreateRet\",\"by\":0,\"u\":%d", i);
+    }
+    if (g_have_ext)
+        pthread_create(&g_ext, NULL, mig_ext_main, NULL);
+    mig_serve(0);
+    if (g_have_ext) {
+        while (!g_ext_done)
+            pause_any(0);
+        pthread_join(g_ext, NULL);
+    }
+    for (int i = 1; i <= g_nm; i++) {
+        EV("\"e\":\"FreeCall\",\"by\":0,\"u\":%d", i);
+        CHK(ABT_thread_free(&MV[i].th));
+        EV("\"e\":\"FreeRet\",\"by\":0,\"u\":%d,\"null\":%d,\"tok\":%d", i, MV[i].th == ABT_THREAD_NULL, i * 10);
+        EV("\"e\":\"MigCount\",\"u\":%d,\"n\":%d", i, MV[i].cb_count);
+    }
+    sample_blocked("quiet");
+}
+
+/* Scenario "migrace": the very first migration requests for a unit are issued
+ * by two requesters at the same time (no migration record exists yet). */
+static volatile int g_race_go, g_race_stop;
+static ABT_thread g_race_t;
+static void race_target(void *a)
+{
+    (void)a;
+    EV("\"e\":\"Start\",\"u\":1,\"arg\":10,\"es\":0,\"n\":1");
+    g_race_go = 1;
+    while (!g_race_stop) {
+        EV("\"e\":\"Yield\",\"u\":1");
+        CHK(ABT_thread_yield());
+        EV("\"e\":\"Back\",\"u\":1");
+        abtv_idle_hint();
+    }
+    EV("\"e\":\"Finish\",\"u\":1");
+}
+static void *race_req(void *p)
+{
+    int tgt = (int)(intptr_t)p;
+    while (!g_race_go)
+        abtv_idle_hint();
+    EV("\"e\":\"Note\",\"what\":\"first-request\",\"tgt\":%d", tgt);
+    int r = ABT_thread_migrate_to_pool(g_race_t, g_pool[tgt][0]);
+    EV("\"e\":\"Note\",\"what\":\"first-request-ret\",\"tgt\":%d,\"ret\":%d", tgt, r);
+    return NULL;
+}
+static void scn_migrace(void)
+{
+    g_race_go = g_race_stop = 0;
+    EV("\"e\":\"Exec\",\"nu\":1,\"nes\":%d,\"cfg\":%d,\"ext\":2", g_nes, g_cfg);
+    EV("\"e\":\"Create\",\"by\":0,\"u\":1,\"kind\":0,\"named\":1,\"arg\":10,\"pool\":0");
+    CHK(ABT_thread_create(g_pool[0][0], race_target, NULL, ABT_THREAD_ATTR_NULL, &g_race_t));
+    EV("\"e\":\"CreateRet\",\"by\":0,\"u\":1");
+    pthread_t a, b;
+    pthread_create(&a, NULL, race_req, (void *)(intptr_t)(1 % g_nes));
+    pthread_create(&b, NULL, race_req, (void *)(intptr_t)(2 % g_nes));
+    for (int i = 0; i < 30; i++)
+        ABT_thread_yield();
+    while (!g_race_go)
+        ABT_thread_yield();
+    /* let the requesters finish while the primary stream keeps running */
+    for (int i = 0; i < 40; i++) {
+        ABT_thread_yield();
+        abtv_idle_hint();
+    }
+    g_race_stop = 1;
+    EV("\"e\":\"FreeCall\",\"by\":0,\"u\":1");
+    CHK(ABT_thread_free(&g_race_t));
+    EV("\"e\":\"FreeRet\",\"by\":0,\"u\":1,\"null\":%d,\"tok\":10", g_race_t == ABT_THREAD_NULL);
+    pthread_join(a, NULL);
+    pthread_join(b, NULL);
+}
+
 /* ---------------------------------------------------------------- configuration */
 static void setup_streams(void)
 {
@@ -477,6 +756,24 @@ static void scenario(const char *name, uint64_t seed)
     setenv("ABT_THREAD_STACKSIZE", "65536", 1);
     CHK(ABT_init(0, NULL));
     setup_streams();
+    if (!strcmp(name, "migrate") || !strcmp(name, "migrace")) {
+        if (!strcmp(name, "migrace"))
+            scn_migrace();
+        else
+            scn_migrate();
+        for (int e = 1; e < g_nes; e++) {
+            EV("\"e\":\"XJoinCall\",\"s\":%d", e);
+            CHK(ABT_xstream_join(g_xs[e]));
+            EV("\"e\":\"XJoinRet\",\"s\":%d,\"us\":[],\"term\":1", e);
+        }
+        sample_blocked("afterjoin");
+        for (int e = 1; e < g_nes; e++)
+            CHK(ABT_xstream_free(&g_xs[e]));
+        EV("\"e\":\"FinalizeCall\"");
+        CHK(ABT_finalize());
+        EV("\"e\":\"FinalizeRet\",\"us\":[]");
+        return;
+    }
     generate();
     EV("\"e\":\"Exec\",\"nu\":%d,\"nes\":%d,\"cfg\":%d,\"ext\":%d", g_nu, g_nes, g_cfg, g_have_ext);
     if (g_have_ext)
